@@ -3,6 +3,7 @@
   Property theorems only.  Theorems quantify over every `Fixes` setting unless they name `Fixes.cur`.
 -/
 import Qfx.Lemmas.CodecParse
+import Qfx.Lemmas.CodecParseD
 import Qfx.Lemmas.CodecTotal
 open Qfx Qfx.Spec
 
@@ -170,6 +171,31 @@ theorem C11_retrievable_nodict (fx : Fixes) (t8 t9 t35 : TagValue) (pre : List T
   rw [hsec]
   exact getBytes_view _ _ _ j tv hfind hj
 
+/-- FIDELITY AND RETRIEVABILITY WITH DICTIONARIES (application dictionary, or transport + application dictionaries), for
+    messages none of whose fields starts a repeating group under the application dictionary (`NoGroupTag`: the dictionary
+    lists no member fields under that tag, for any message type) — e.g. every message whose fields are plain fields of the
+    dictionary or unknown to it.  Header / trailer membership then comes from `IsHeader` / `IsTrailer` AND the transport
+    dictionary (`secOf d`); the transport dictionary must not list CheckSum in its header.  The parse succeeds, `Message.fields`
+    is the wire's field list in order, `Bytes()` is the wire, and every field with a unique tag is returned by `GetBytes`
+    from the section `secOf d` assigns to its tag. -/
+theorem C11_faithful_dict_nogroups (fx : Fixes) (d : Dicts) (t8 t9 t35 : TagValue) (pre : List TagValue) (t10 : TagValue)
+    (hw : WireMsg t8 t9 t35 pre t10)
+    (hbl : atoi t9.value = .ok ((fieldsLength (t8 :: t9 :: t35 :: (pre ++ [t10])) : Nat) : Int))
+    (hng : ∀ tv ∈ pre, NoGroupTag d tv.tag) (hng10 : NoGroupTag d 10) (hh10 : isHeaderField d 10 = false) :
+    ∃ m, parseMessage fx d (wireOf (t8 :: t9 :: t35 :: (pre ++ [t10]))) = .ok m ∧
+      m.fields = t8 :: t9 :: t35 :: (pre ++ [t10]) ∧
+      m.bytes fx = .ok (wireOf (t8 :: t9 :: t35 :: (pre ++ [t10])), m) ∧
+      ∀ (j : Nat) (tv : TagValue), (t8 :: t9 :: t35 :: (pre ++ [t10]))[j]? = some tv →
+        (∀ j' tv', (t8 :: t9 :: t35 :: (pre ++ [t10]))[j']? = some tv' → j' ≠ j → tv'.tag ≠ tv.tag) →
+        (m.sec (secOf d tv.tag)).getBytes m.fields tv.tag = .ok tv.value := by
+  refine ⟨_, parse_wire_D fx t8 t9 t35 pre t10 hw hbl hng hng10 hh10, rfl, rfl, ?_⟩
+  intro j tv hj huniq
+  have hfind := ndFinalD_find (d := d) t8 t9 t35 pre t10 hw j tv hj huniq
+  have hsec : ∀ s, (ndMessageD d t8 t9 t35 pre t10).sec s = (ndFinalD d t8 t9 t35 pre t10).sec s := by
+    intro s; cases s <;> rfl
+  rw [hsec]
+  exact getBytes_view _ _ _ j tv hfind hj
+
 /-- PANIC FREEDOM OF THE PARSER (codec part of C09; `C09_parse_total` of DESIGN §5).  After the fixes of D2 and D3, for EVERY
     byte string and EVERY dictionaries (transport and application, any content), `ParseMessageWithDataDictionary` into a
     fresh message returns a message or an error: none of the Go index / slice expressions of `doParsing`, `parseGroup`,
@@ -220,11 +246,21 @@ theorem C11_orig_xml_len_faults (b : Bytes) (e : Nat) (n : Int) (he : indexByte 
   constructor <;> simp [extractXMLDataField, he, hc, Fixes.orig, Fixes.cur]
 
 /-! non-vacuity -/
+example : NoGroupTag { transport := some ([1128], []), app := some [([68], [DNode.mk 55 [], DNode.mk 453 [DNode.mk 448 []]])] } 55 := by
+  intro msgs h p hp
+  injection h with h; subst h
+  simp only [List.mem_singleton] at hp; subst hp
+  rfl
+example : ¬ NoGroupTag { transport := none, app := some [([68], [DNode.mk 55 [], DNode.mk 453 [DNode.mk 448 []]])] } 453 := by
+  intro h
+  have := h _ rfl ([68], [DNode.mk 55 [], DNode.mk 453 [DNode.mk 448 []]]) (by simp)
+  simp [pathWalk, dfind, DNode.tag, DNode.children] at this
 example : (extractField [56, 61, 70, 1, 57, 61, 53, 1]).1 = [57, 61, 53, 1] := by decide
 
 /- Clause checklist (properties.jsonl C11):
    "parsing succeeds … every field retrievable … order preserved … raw bytes unchanged"   no dictionary: C11_faithful_nodict,
-        C11_retrievable_nodict (theorems); with dictionaries and XMLData: C11_faithful_full, C11_retrievable_full
+        C11_retrievable_nodict; app / transport+app dictionaries, messages without dictionary groups: C11_faithful_dict_nogroups;
+        with dictionary groups and XMLData: C11_faithful_full, C11_retrievable_full (monitor)
         (monitor clauses accepts_wf, fields_faithful, parsed_sections, retrievable, raw_unchanged); field slicing: C11_extractField_slices
    "first three fields are not 8, 9, 35 … rejected"                                          C11_rejects_order
    "BodyLength disagrees with its content … rejected"                                        C11_rejects_length, C11_finish_checks_length,
